@@ -1,1 +1,29 @@
-// format grammar (filled in later)
+// ---- format grammar (written from the format description, contracts/FORMAT.md) ----
+
+/// Result of parsing a value of type T from a byte sequence that starts at
+/// stream offset `pos`: the value and the number of bytes it occupies, a
+/// foreign tag, or "the sequence ends before the value does".
+pub enum PR<T> {
+    Val(T, nat),
+    BadTag(usize),
+    Short,
+}
+
+/// sequencing: parse A then continue at the advanced offset
+pub open spec fn pr_then<A, B>(a: PR<A>, f: spec_fn(A, nat) -> PR<B>) -> PR<B> {
+    match a {
+        PR::Val(v, n) => f(v, n),
+        PR::BadTag(t) => PR::BadTag(t),
+        PR::Short => PR::Short,
+    }
+}
+
+/// native-endian decoding of fixed-width primitives (uninterpreted: the
+/// bit-level meaning is checked by the Kani lemmas rt_full_uints & co.)
+pub open spec fn u8_of(s: Seq<u8>) -> u8 { s[0] }
+pub uninterp spec fn u32_of(s: Seq<u8>) -> u32;
+pub uninterp spec fn usize_of(s: Seq<u8>) -> usize;
+
+pub open spec fn parse_fixed<T>(s: Seq<u8>, n: nat, of: spec_fn(Seq<u8>) -> T) -> PR<T> {
+    if s.len() < n { PR::Short } else { PR::Val(of(s.take(n as int)), n) }
+}
